@@ -63,6 +63,8 @@ def cases(tier, seed):
         yield {"fam": "undefined", "i": i}
     for i in range(60 if tier == "quick" else 600):
         yield {"fam": "wide", "i": i}
+    for i in range(36 if tier == "quick" else 360):
+        yield {"fam": "huge", "i": i}
 
 
 def setup(ctx):
@@ -105,7 +107,21 @@ def run_defs(ctx, gdef, k, idx, it):
     has_single = any(g["single"] for g in gdef.values())
     if not has_single and idx % 4 == 0:
         cfg.update(dm="IOU", dt=0.6)
+    if idx % 3 == 2 and k <= 6:
+        # label values that are congruent modulo 256 / 65536 to each other, in a wider dtype
+        vals = [[26, 282, 538, 1050, 65562, 794], [7, 263, 65543, 519, 1031, 131079]][idx % 2][:k]
+        wide = [np.uint16, np.int32, np.uint32][idx % 3] if max(vals) < 65536 else [np.int32, np.uint32][idx % 2]
+        if it != "SEMANTIC" and np.dtype(wide).kind != "u":
+            wide = np.uint32
+        lut = np.array([0] + vals, dtype=wide)
+        pred, refa = lut[pred.astype(np.int64)], lut[refa.astype(np.int64)]
+        gdef = {n: dict(g, labels=[vals[l - 1] for l in g["labels"]]) for n, g in gdef.items()}
+        ctx.count("f:C12.congruent_large_labels")
     gcfg = dict(cfg, groups=gdef)
+    if idx % 5 == 0:
+        # the same group definition written with a label listed twice (the set of labels is what counts)
+        gcfg = dict(cfg, groups={n: dict(g, labels=list(g["labels"]) + [g["labels"][len(g["labels"]) // 2]]) for n, g in gdef.items()})
+        ctx.count("f:C12.duplicate_label_in_definition")
     grouped = meta.run_all_groups(gcfg, pred, refa)
     ctx.count("evaluations")
     det = {"pred": pred, "ref": refa, "cfg": cfg, "groups": gdef}
@@ -187,8 +203,42 @@ def wide_labels(ctx, i):
                  features={"input": it, "kind": "plain", "wide_labels": True})
 
 
+def huge_labels(ctx, i):
+    """uint64 maps with label values around 2^60: an undefined label one above a defined one must be rejected"""
+    r = gen.rng(ctx.seed, "c12h", i)
+    it = ["SEMANTIC", "MATCHED_INSTANCE"][i % 2]
+    base = 2**60
+    defined = [base + 2 * j for j in range(13)]
+    gdef = {"low": {"labels": defined[:6], "kind": "plain", "single": False}, "high": {"labels": defined[6:], "kind": ["plain", "merge"][i % 2], "single": False}}
+    pred = np.zeros((4, 6), dtype=np.uint64)
+    refa = np.zeros((4, 6), dtype=np.uint64)
+    for arr in (pred, refa):
+        for _ in range(4):
+            arr[gen._box(arr.shape, r, 0.5)] = defined[int(r.integers(0, 13))]
+    cfg = {"input": it, "backend": "scipy", "matcher": None if it == "MATCHED_INSTANCE" else {"kind": "naive", "metric": "IOU", "thr": 0.5}, "groups": gdef, "global": ["DSC"]}
+    ok = meta.run_all_groups(cfg, pred, refa)
+    ctx.count("evaluations")
+    if "ERR" in ok:
+        ctx.viol("grouped_evaluate_raised", {"pred": pred, "ref": refa, "groups": gdef, "exc": ok["ERR"]}, features={"input": it, "huge_labels": True})
+        return
+    bad = base + 1 + 2 * int(r.integers(0, 12))
+    where = ["pred", "ref", "both"][i % 3]
+    for arr, name in ((pred, "pred"), (refa, "ref")):
+        if where in (name, "both"):
+            arr[tuple(int(r.integers(0, s)) for s in arr.shape)] = bad
+    res = meta.run_all_groups(cfg, pred, refa)
+    ctx.count("evaluations")
+    ctx.count("C12.undefined_label_judged")
+    ctx.count("f:C12.huge_uint64_labels")
+    ctx.nontrivial("huge", i, bad)
+    if "ERR" not in res:
+        ctx.viol("undefined_label_accepted", {"pred": pred, "ref": refa, "groups": gdef, "undefined_label": bad, "where": where, "input": it}, features={"input": it, "where": where, "huge_labels": True})
+
+
 def run(case, ctx):
     fam = case["fam"]
+    if fam == "huge":
+        return huge_labels(ctx, case["i"])
     if fam == "wide":
         return wide_labels(ctx, case["i"])
     if fam == "enum":
